@@ -358,6 +358,8 @@ def render_variant_match(d):
 
 
 def render_module(d):
+    if d.get("module_override"):
+        return PRELUDE + d["module_override"]
     src = PRELUDE + render_decl_only(d)
     inner = inner_type(d).replace("T", "i32") if d.get("gen_decl") else inner_type(d)
     src += "pub type Inner = %s;\n" % inner
